@@ -14,6 +14,7 @@ package checker
 //@ func checker.visitor.visit returns t
 //@   property C03 C04
 //@   assigns *
+//@   ensures[collections-balanced] len(v.collections) == old(len(v.collections))
 
 //@ func checker.dereference
 //@   pure
@@ -37,6 +38,7 @@ package checker
 //@   requires v != nil && node != nil
 //@   ensures[first-wins] old(v.err) != nil ==> v.err == old(v.err)
 //@   ensures[recorded] old(v.err) == nil ==> v.err != nil
+//@   ensures[only-err] len(v.collections) == old(len(v.collections)) && base(v.collections) == old(base(v.collections))
 
 // `#` has the element type of the innermost collection being iterated (C03, C15, C18)
 //@ func checker.indexType returns t ok
@@ -58,3 +60,13 @@ package checker
 //@   assigns *
 //@   requires v != nil && node != nil
 //@   loop 0 body-ensures[arg-assignable] t == nil || kind(t) == 20 || assignable(t, in)
+
+// the stack of collection types that gives `#` its type is balanced: every builtin pops what it pushed (C18, C03);
+// together with visit's clause [collections-balanced] (the induction hypothesis for the children) this keeps the
+// innermost collection on top while a closure body is checked
+//@ func checker.visitor.BuiltinNode returns t
+//@   property C03 C18
+//@   mode panics
+//@   assigns *
+//@   requires v != nil && node != nil
+//@   ensures[collections-balanced] len(v.collections) == old(len(v.collections))
